@@ -210,6 +210,36 @@ theorem sumRecs_kvDel (l : List ((Addr × Suffix) × Record)) (k : Addr × Suffi
     · simp [kvDel, sumRecs, kvGet, hk, ih]
       omega
 
+/-! ### record totals per receiver -/
+
+theorem sumRecsFor_kvSet (t : Addr) (l : List ((Addr × Suffix) × Record)) (k : Addr × Suffix) (r : Record) (d : Denom) :
+    sumRecsFor t (kvSet l k r) d = sumRecsFor t l d
+      + (if k.1 = t then Coins.amountOf r.coins d - Coins.amountOf (optCoins (kvGet l k)) d else 0) := by
+  induction l with
+  | nil => simp [kvSet, sumRecsFor, optCoins]
+  | cons hd tl ih =>
+    obtain ⟨k2, r2⟩ := hd
+    by_cases hk : k2 = k
+    · subst hk
+      simp only [kvSet, if_true, sumRecsFor, kvGet, optCoins]
+      split <;> omega
+    · simp only [kvSet, hk, if_false, sumRecsFor, kvGet, ih]
+      omega
+
+theorem sumRecsFor_kvDel (t : Addr) (l : List ((Addr × Suffix) × Record)) (k : Addr × Suffix) (d : Denom) :
+    sumRecsFor t (kvDel l k) d = sumRecsFor t l d
+      - (if k.1 = t then Coins.amountOf (optCoins (kvGet l k)) d else 0) := by
+  induction l with
+  | nil => simp [kvDel, sumRecsFor, optCoins]
+  | cons hd tl ih =>
+    obtain ⟨k2, r2⟩ := hd
+    by_cases hk : k2 = k
+    · subst hk
+      simp only [kvDel, if_true, sumRecsFor, kvGet, optCoins]
+      split <;> omega
+    · simp only [kvDel, hk, if_false, sumRecsFor, kvGet, ih]
+      omega
+
 /-! ### the record suffix does not depend on the order of the senders -/
 
 theorem addrLe_trans (a b c : Addr) : addrLe a b = true → addrLe b c = true → addrLe a c = true := by
